@@ -20,7 +20,13 @@
 //!                         (locations are reported as the signature's position, as for memory storage)
 //!   zipcheck <path>       Collection::from_zipfile(/repo/tests/test-data/<path>): every row equals
 //!                         Record::from_sig of the one sketch sig_for_dataset returns
-use sourmash::collection::{Collection, CollectionSet};
+//!
+//! Built with `--no-default-features` (sourmash with its default feature set: the serial cfg variants
+//! of Collection::from_sigs and Manifest::from(&[PathBuf]); no RocksDB) `lookup i rdb` answers `NA`.
+use sourmash::collection::Collection;
+#[cfg(feature = "disk")]
+use sourmash::collection::CollectionSet;
+#[cfg(feature = "disk")]
 use sourmash::index::revindex::{RevIndex, RevIndexOps};
 use sourmash::encodings::HashFunctions;
 use sourmash::manifest::{Manifest, Record};
@@ -652,6 +658,7 @@ fn build_stored(sigs: &[Signature], be: &str, version: u64) -> Stored {
             std::fs::write(&p, zip_bytes(&entries)).unwrap();
             Collection::from_zipfile(Utf8PathBuf::from_path_buf(p).unwrap()).map_err(err_name)
         }
+        #[cfg(feature = "disk")]
         "rdb" => {
             let sigdir = dir.path().join("sigs");
             let paths = write_sig_files(&sigdir, sigs);
@@ -810,6 +817,8 @@ fn step(st: &mut St, ws: &[&str]) -> String {
             let c = Collection::from_sigs(st.sigs.clone()).unwrap();
             lookup_in(&c, ws[1].parse().unwrap())
         }
+        #[cfg(not(feature = "disk"))]
+        "lookup" if ws[2] == "rdb" => "NA".into(),
         "lookup" => {
             let be = ws[2];
             if st.stored.get(be).map(|b| b.version) != Some(st.version) {
